@@ -7,6 +7,7 @@ import (
 	"fmt"
 	"os"
 	"path/filepath"
+	"runtime"
 	"strconv"
 	"strings"
 	"sync"
@@ -311,3 +312,5 @@ func mustMounts(dir string) []mount.SyscallParams {
 	}
 	return sp
 }
+
+func runtimeStack(b []byte) int { return runtime.Stack(b, false) }
